@@ -98,6 +98,7 @@ func Corpus() *Program {
 		fld("ChC", 4, KEnum, ref("Mode"), oneof("Choice")), fld("ChD", 5, KMessage, ref("Leaf"), oneof("Choice")),
 		fld("ChE", 6, KMessage, ref("Empty"), oneof("Choice")),
 		fld("ChF", 11, KEnum, ref("Power"), oneof("Choice")), fld("ChG", 12, KEnum, ref("Color"), oneof("Choice")),
+		fld("ChT", 16, KTime, oneof("Choice")), fld("ChU", 17, KDuration, oneof("Choice")),
 		fld("ChH", 13, KBool, oneof("Choice")), fld("ChI", 14, KDouble, oneof("Choice")), fld("ChJ", 15, KBytes, oneof("Choice")),
 		fld("pick_s", 7, KString, oneof("lower_pick")), fld("pick_l", 8, KMessage, ref("Leaf"), oneof("lower_pick")),
 		fld("Items", 9, KMessage, ref("WithOneof"), list()),
